@@ -8,6 +8,10 @@ use std::path::PathBuf;
 
 fn main() {
     let args: Vec<String> = std::env::args().skip(1).collect();
+    if args.first().map(|s| s.as_str()) == Some("--scenario-trace") {
+        rngs_verif::props::c19::scenario_trace_main();
+        return;
+    }
     if args.first().map(|s| s.as_str()) == Some("--solo-trace") {
         rngs_verif::props::c19::solo_trace_main();
         return;
